@@ -212,6 +212,11 @@ def layout_cases(tier):
                 for maxatoms in (natoms - 1, natoms, natoms + 1):
                     if maxatoms >= 1:
                         out.append(("fillmax", fill, ntraps, natoms, maxatoms))
+    # the caller edits what it READ from a layout (trap mapping, coordinate arrays) before the device judges the layout
+    for geom in ("fits", "too-close", "too-far"):
+        for reader in ("traps_dict", "traps_dict-twice", "coords", "sorted_coords", "trap_coordinates"):
+            for edit in ("scale", "move-one", "delete", "zero"):
+                out.append(("layoutalias", geom, reader, edit))
     for dd in (D - E, D, D + E):
         out.append(("trapgeom", dd))
     for rr in (R - E, R, R + E):
@@ -306,6 +311,57 @@ def check_layout(case):
                     why = "atoms" if natoms > maxatoms else "filling"
                     out.append((f"C12:misfit-layout-register-accepted:{why}", f"{how}: {natoms} atoms (max {maxatoms}) on {ntraps} traps, max filling {fill}"))
             return out + [("@layout", "")]
+        if case[0] == "layoutalias":
+            from pulser import Sequence
+
+            _, geom, reader, edit = case
+            dev = make_device(dict(dimensions=2, max_atom_num=None, min_atom_distance=D, max_radial_distance=R), max_layout_filling=1.0)
+            pts = {"fits": [(0.0, 0.0), (5.0, 0.0), (0.0, 5.0), (-5.0, -5.0)], "too-close": [(0.0, 0.0), (D / 2, 0.0), (0.0, 5.0), (-5.0, -5.0)],
+                   "too-far": [(0.0, 0.0), (5.0, 0.0), (0.0, 5.0), (R + 3.0, 0.0)]}[geom]
+            L = RegisterLayout(pts)
+
+            def verdicts(lay):
+                v = []
+                for call in (lambda: dev.validate_layout(lay), lambda: dev.validate_register(lay.define_register(0, 1)),
+                             lambda: Sequence(lay.define_register(0, 2), dev), lambda: lay.define_register(3).qubits):
+                    try:
+                        call()
+                        v.append("ok")
+                    except Exception as e:
+                        v.append(type(e).__name__)
+                return v
+
+            before = verdicts(RegisterLayout(pts))
+            want_ok = geom == "fits"
+            if (before[0] == "ok") != want_ok:
+                out.append((f"C12:layout-verdict:{geom}", f"{before}"))
+            if reader == "traps_dict-twice":
+                L.traps_dict
+            got = {"traps_dict": lambda: L.traps_dict, "traps_dict-twice": lambda: L.traps_dict, "coords": lambda: L.coords,
+                   "sorted_coords": lambda: L.sorted_coords, "trap_coordinates": lambda: L.traps_dict[0]}[reader]()
+            rows = list(got.values()) if isinstance(got, dict) else ([got] if reader == "trap_coordinates" else list(got))
+            try:
+                if edit == "scale":
+                    for r in rows:
+                        r *= 2.0
+                elif edit == "move-one":
+                    rows[-1][...] = 1e4
+                elif edit == "zero":
+                    for r in rows:
+                        r[...] = 0.0
+                elif edit == "delete":
+                    if isinstance(got, dict):
+                        for k_ in list(got)[1:]:
+                            del got[k_]
+                    else:
+                        rows[0][...] = float("nan")
+            except (ValueError, TypeError):
+                return out + [("@layout-read-only", "")]
+            after = verdicts(L)
+            if after != before:
+                out.append((f"C12:verdict-follows-the-callers-edit-of-what-it-read:{reader}:{geom}",
+                            f"{edit}: validate_layout / validate_register / Sequence / define_register answered {before} for these traps, {after} after the caller edited the object returned by {reader}"))
+            return out + [("@layoutalias", "")]
         if case[0] == "trapgeom":
             dev = make_device(dict(dimensions=2, max_atom_num=None, min_atom_distance=D, max_radial_distance=None), max_layout_filling=1.0)
             L = RegisterLayout([(0.0, 0.0), (case[1], 0.0), (0.0, 9.0)])
@@ -421,7 +477,7 @@ def worker(case):
     k = case[0]
     if k == "reg":
         return check_register(case[1:])
-    if k in ("fill", "fillmax", "trapgeom", "trapradius"):
+    if k in ("fill", "fillmax", "trapgeom", "trapradius", "layoutalias"):
         return check_layout(case)
     return check_constructor(case)
 
